@@ -173,6 +173,20 @@ def evaluate(c):
             _, gb = pattern(cs, twos)
             ev += 2
             chk('SPLIT-second-' + b, float(np.abs(ga - gb)[ga > -200].max()), 1e-9, 'splitting the second medium (%s) changes the pattern' % b)
+            # a first medium in which no reflection point lies has no influence: neither its constants nor its radials
+            lo = lo_l if b == 'linear' else lo_c
+            if b == 'linear' or lo > 0.05:
+                xb = lo - 0.5 if b == 'linear' else 0.5 * lo
+                pa = pattern(cs, dict(media=[[13., 5e-3, 0., xb], [4., 1e-3, 0.]], boundary=b))[1]
+                pb = pattern(cs, dict(media=[[80., 4., 0., xb], [4., 1e-3, 0.]], boundary=b))[1]
+                ev += 2
+                chk('UNUSED-FIRST-' + b, float(np.abs(pa - pb)[pa > -200].max()), 1e-9, 'constants of a first medium without reflection points (%s boundary at %.3g, reflections from %.3g) change the pattern' % (b, xb, lo))
+                if b == 'circular':
+                    pr = pattern(cs, dict(media=[[13., 5e-3, 0., xb], [4., 1e-3, 0.]], boundary=b, radials=[16, 1e-3]))[1]
+                    ev += 1
+                    chk('UNUSED-RADIALS', float(np.abs(pa - pr)[pa > -200].max()), 1e-9, 'radials on a first medium without reflection points (radius %.3g, reflections from %.3g) change the pattern' % (xb, lo))
+                canon.append('%s|v%d|unused|%s' % (und, vi, b))
+                nontriv.append(True)
             for eps, sig, h in ((3., 1e-4, -2.), (80., 4., 0.), (1., 1e12, -10.)):
                 _, g4 = pattern(cs, dict(media=[[13., 5e-3, 0., hi + 0.5], [eps, sig, h]], boundary=b))
                 ev += 1
